@@ -357,6 +357,8 @@ class RealHistory:
                 self.callable_kinds = getattr(self, 'callable_kinds', {})
                 self.callable_kinds[kind] = self.callable_kinds.get(kind, 0) + 1
                 yp.register_function(name, variant(lambda args: pred(*args), arity, kind))
+            elif style == 'variadic':
+                yp.register_function(name, pred, arity=-1)
             else:
                 yp.register_function(name, pred, arity=arity)
         elif k == 'load_bad':
